@@ -2618,10 +2618,12 @@ class quantized_tanh(base_quantizer.BaseQuantizer):  # pylint: disable=invalid-n
     self.use_real_tanh = use_real_tanh
 
   def __str__(self):
+    # Arguments are printed positionally, so every argument that precedes a
+    # printed one has to be printed too.
     flags = [str(self.bits)]
-    if self.use_stochastic_rounding:
+    if self.use_stochastic_rounding or self.symmetric or self.use_real_tanh:
       flags.append(str(int(self.use_stochastic_rounding)))
-    if self.symmetric:
+    if self.symmetric or self.use_real_tanh:
       flags.append(str(int(self.symmetric)))
     if self.use_real_tanh:
       flags.append(str(int(self.use_real_tanh)))
@@ -2684,10 +2686,12 @@ class quantized_sigmoid(base_quantizer.BaseQuantizer):  # pylint: disable=invali
     self.use_stochastic_rounding = use_stochastic_rounding
 
   def __str__(self):
+    # Arguments are printed positionally, so every argument that precedes a
+    # printed one has to be printed too.
     flags = [str(self.bits)]
-    if self.symmetric:
+    if self.symmetric or self.use_real_sigmoid or self.use_stochastic_rounding:
       flags.append(str(int(self.symmetric)))
-    if self.use_real_sigmoid:
+    if self.use_real_sigmoid or self.use_stochastic_rounding:
       flags.append(str(int(self.use_real_sigmoid)))
     if self.use_stochastic_rounding:
       flags.append(str(int(self.use_stochastic_rounding)))
